@@ -1,4 +1,4 @@
-import ApolloModel.Proofs.ParserTree34
+import ApolloModel.Proofs.ParserTree35
 import ApolloModel.Proofs.ParserComplete30
 import ApolloModel.Proofs.ParserTreeDef13
 import ApolloModel.Proofs.ParserTreeInj2
@@ -948,5 +948,79 @@ theorem pipeline_print_parse_document_closed (pre : Option Ast.Str) (level : Nat
   simp [List.map_map, Function.comp_def]
 
 end PipelineWhole
+
+section PropertyStatement
+open Apollo.Parse Apollo.Rowan
+
+theorem wfDefinitions_of_mem : ∀ (ds : List Definition), (∀ x ∈ ds, wfDefinition x = true) → wfDefinitions ds = true
+  | [], _ => rfl
+  | d :: r, h => by
+    simp only [wfDefinitions, Bool.and_eq_true]
+    exact ⟨h d (by simp), wfDefinitions_of_mem r (fun x hx => h x (by simp [hx]))⟩
+
+/-- **reprint_byte_identical** (the last clause of the property, on the real pipeline model): for every configuration
+    and every well-formed non-empty document within the recursion limit, printing, parsing with the CST parser model,
+    converting with `Document::from_cst` and printing again gives byte-identical text. -/
+theorem reprint_byte_identical (pre : Option Ast.Str) (level : Nat) (d : Definition) (r : List Definition)
+    (hwf : wfDefinitions (d :: r) = true) (hpre : ∀ p, pre = some p → p.all Apollo.Strs.isWs = true)
+    (hn : NamesWf (docSegs pre level (d :: r))) (hi : IntsSpec (docSegs pre level (d :: r)))
+    (hf : FloatsSpec (docSegs pre level (d :: r)))
+    (rl : Nat) (hfit : ∀ x ∈ d :: r, Parse.definitionFit rl x) :
+    ∃ root, (parse .document none rl (serializeDocument pre level (d :: r)).out).outcome = .tree root ∧
+      (serializeDocument pre level (FromCst.fromCst root).1).out = (serializeDocument pre level (d :: r)).out := by
+  obtain ⟨_, root, hroot, hconv⟩ := pipeline_print_parse_document_closed pre level d r hwf hpre hn hi hf rl hfit
+  exact ⟨root, hroot, by rw [hconv]⟩
+
+/-- **parsed_document_roundtrip — the statement of property C08 on the real pipeline model.**  Let `src` be ANY source
+    that `Parser::parse` (model; no token limit, recursion limit `rl`) accepts with zero errors, `root` its tree and
+    `D = Document::from_cst root` its AST.  Then EITHER the accepted text uses one of the two liberties of the parser
+    (`strictItems its = none` for the decomposition `its` of `document_pipeline_agrees`: a leading `&` / `|` in a
+    separated list, or a root operation type without its named type — the recorded C05 finding), OR:
+    `D` is non-empty and well-formed, and for EVERY configuration (white-space indentation prefix or none, any level) and
+    every recursion limit `rl2` within which the definitions of `D` fit (`definitionFit rl2`, the single explicit
+    hypothesis; exact soundness `document_accept_sound_exact` is to discharge it with `rl2 = rl`):
+    serializing `D` and parsing the text again gives NO errors and an EQUAL AST (`from_cst` of the new tree is `D`), and
+    serializing the re-parsed AST gives BYTE-IDENTICAL text.
+    No hypothesis on names or numbers: that every Name of `D` is a GraphQL name and every Int / Float an IntValue /
+    FloatValue text is derived from the lexer model (`nameQ_srcToks`, `numQ_srcToks` through `lex_ok_tokens_sound`) and
+    carried through the printer's tokens (`tokOkA_printed`: the only token the printer adds is the keyword `query`). -/
+theorem parsed_document_roundtrip (rl : Nat) (src : Parse.Str) (root : Elem)
+    (h : (parse .document none rl src).outcome = .tree root) (herr : (parse .document none rl src).errors = []) :
+    (∃ its : List Parse.DocItem, sigToks (Apollo.Lex.lex none src) = some (Parse.docToks its) ∧
+        (FromCst.fromCst root).1 = its.map Parse.DocItem.conv ∧ Parse.strictItems its = none) ∨
+    ((FromCst.fromCst root).1 ≠ [] ∧ wfDefinitions (FromCst.fromCst root).1 = true ∧
+      ∀ (pre : Option Ast.Str) (level : Nat), (∀ p, pre = some p → p.all Apollo.Strs.isWs = true) →
+      ∀ rl2 : Nat, (∀ x ∈ (FromCst.fromCst root).1, Parse.definitionFit rl2 x) →
+        (parse .document none rl2 (serializeDocument pre level (FromCst.fromCst root).1).out).errors = [] ∧
+        ∃ root2, (parse .document none rl2 (serializeDocument pre level (FromCst.fromCst root).1).out).outcome = .tree root2 ∧
+          (FromCst.fromCst root2).1 = (FromCst.fromCst root).1 ∧
+          (serializeDocument pre level (FromCst.fromCst root2).1).out =
+            (serializeDocument pre level (FromCst.fromCst root).1).out) := by
+  obtain ⟨hclean, ts, e, its, h1, h2, h3, h4, h5, h6, h7⟩ := Parse.parseDocument_agrees rl src root h herr
+  cases hs : Parse.strictItems its with
+  | none =>
+    exact Or.inl ⟨its, (Parse.sigToks_src_iff src _).mpr ⟨hclean, ts, e, h1, h2, h4⟩, h6, hs⟩
+  | some items =>
+    right
+    obtain ⟨a, b, c, dd, _⟩ := h7 items hs
+    have hok : ∀ t ∈ itemsToks items, Parse.TokOkA t :=
+      Parse.tokOkA_of_src src hclean ts e h1 (itemsToks items) (by rw [← b]; exact h4)
+    rw [dd]
+    have hwfm : ∀ x ∈ items.map (·.2), wfDefinition x = true := by
+      intro x hx
+      obtain ⟨i, hi, rfl⟩ := List.mem_map.mp hx
+      exact c i hi
+    refine ⟨by simpa using a, wfDefinitions_of_mem _ hwfm, ?_⟩
+    intro pre level hpre rl2 hfit
+    obtain ⟨hn, hi, hf⟩ := Parse.segs_hyps_of_toks pre level (items.map (·.2))
+      (Parse.tokOkA_printed (outputEmptyAtStart pre level) items hok)
+    cases hD : items.map (·.2) with
+    | nil => exact absurd hD (by simpa using a)
+    | cons x r =>
+      rw [hD] at hn hi hf hfit hwfm
+      obtain ⟨e1, root2, e2, e3⟩ := pipeline_print_parse_document_closed pre level x r (wfDefinitions_of_mem _ hwfm) hpre hn hi hf rl2 hfit
+      exact ⟨e1, root2, e2, e3, by rw [e3]⟩
+
+end PropertyStatement
 
 end Apollo.C08
